@@ -144,7 +144,7 @@ Quick == Plain(3) \o
 CachingComps == <<"dict", "dd", "fs2", "fs2noext", "dfs", "fsdfs", "nested", "nestedlast">>
 SeqOfSet(S) == LET RECURSIVE f(_) f(T) == IF T = {} THEN <<>> ELSE LET x == CHOOSE y \in T : TRUE IN <<x>> \o f(T \ {x}) IN f(S)
 Thorough == Plain(4) \o
-  SeqOfSet({ Cf(CachingComps[i], TRUE, auto, FALSE, cap, "two", EF, IF CachingComps[i] \in {"fsdfs", "nested", "dfs"} THEN 4 ELSE 5)
+  SeqOfSet({ Cf(CachingComps[i], TRUE, auto, FALSE, cap, "two", EF, IF CachingComps[i] \in {"dict", "dd", "fs2"} THEN 5 ELSE 4)
                : i \in 1..Len(CachingComps), auto \in BOOLEAN, cap \in {1, 2} }
            \cup { Cf(c, TRUE, auto, TRUE, 2, "two", EF, 4) : c \in {"fs2", "dfs", "nestedlast"}, auto \in BOOLEAN }
            \cup { Cf(c, TRUE, auto, TRUE, cap, "two", EF, 4) : c \in {"nsfs", "nsstrict", "nschoice"}, auto \in BOOLEAN, cap \in {1, 2} }
@@ -158,10 +158,11 @@ VARIABLES cf,      \* the configuration (never changes)
           store,   \* cell -> current version (0 = absent)
           wr,      \* cell -> number of writes so far
           cache,   \* the root's LRU cache: sequence of [key, ans], least recently used first
+          gone,    \* ghost: cache keys that were evicted and not cached again since (a miss on one of them shows the eviction)
           pc, req, idx, ans, how,   \* the request in progress
           last,    \* the last completed operation
           hist     \* all completed operations (not part of the VIEW)
-vars == <<cf, store, wr, cache, pc, req, idx, ans, how, last, hist>>
+vars == <<cf, store, wr, cache, gone, pc, req, idx, ans, how, last, hist>>
 
 RootCaching == cf.caching
 AutoReload == cf.auto
@@ -190,7 +191,7 @@ Init == /\ \E c \in Configs, p \in EFL :
               /\ store = PopStore(c, p)
               /\ hist = <<[op |-> "init", pop |-> p, present |-> { x \in DOMAIN PopStore(c, p) : PopStore(c, p)[x] > 0 }]>>
         /\ wr = store
-        /\ cache = <<>>
+        /\ cache = <<>> /\ gone = {}
         /\ pc = "idle" /\ req = NoReq /\ idx = 0 /\ ans = NotFound /\ how = ""
         /\ last = [op |-> "init"]
 
@@ -213,6 +214,7 @@ Entry(k) == cache[CHOOSE i \in 1..Len(cache) : cache[i].key = k]
 Without(k) == SelectSeq(cache, LAMBDA e : e.key # k)
 Touch(k) == Append(Without(k), Entry(k))
 Insert(e) == Append(IF Has(e.key) THEN Without(e.key) ELSE IF Len(cache) >= Cap THEN Tail(cache) ELSE cache, e)
+Evicted(k) == IF ~Has(k) /\ Len(cache) >= Cap THEN {cache[1].key} ELSE {}      \* what Insert of key k pushes out
 UpToDate(a) == ~a.det \/ Ver([store |-> a.store, key |-> a.key]) = a.ver         \* dictionaries have no `uptodate`: always "up to date"
 
 (* what the docs leave open: a cached template that the up-to-date check accepted although the composition would now answer otherwise *)
@@ -223,7 +225,8 @@ Done(r, a, h) ==
          rec == [op |-> "get", name |-> r.name, ns |-> r.ns, ckey |-> CKey(r),
                  ref |-> ref, mech |-> a,
                  adm |-> IF Unspecified(r, a, h) THEN <<a, ref>> ELSE <<a>>,
-                 how |-> IF Unspecified(r, a, h) THEN (IF a.det THEN "shadowed" ELSE "undetectable") ELSE h]
+                 how |-> IF Unspecified(r, a, h) THEN (IF a.det THEN "shadowed" ELSE "undetectable")
+                         ELSE IF h = "miss" /\ CKey(r) \in gone THEN "miss-evicted" ELSE h]
      IN last' = rec /\ hist' = Append(hist, rec)
   /\ pc' = "idle" /\ req' = NoReq /\ idx' = 0 /\ ans' = NotFound /\ how' = ""
 
@@ -232,11 +235,11 @@ Probe(r, i, h) ==
   LET ps == PT(r.name, r.ns)
   IN IF Ver(Cell(ps[i])) > 0
      THEN IF RootCaching
-          THEN pc' = "store" /\ req' = r /\ idx' = i /\ ans' = Found(ps[i]) /\ how' = h /\ UNCHANGED <<cache, last, hist>>
-          ELSE Done(r, Found(ps[i]), h) /\ UNCHANGED cache
+          THEN pc' = "store" /\ req' = r /\ idx' = i /\ ans' = Found(ps[i]) /\ how' = h /\ UNCHANGED <<cache, gone, last, hist>>
+          ELSE Done(r, Found(ps[i]), h) /\ UNCHANGED <<cache, gone>>
      ELSE IF i = Len(ps)
-          THEN Done(r, NotFound, h) /\ UNCHANGED cache                 \* TemplateNotFoundError; the cache is left alone
-          ELSE pc' = "walk" /\ req' = r /\ idx' = i + 1 /\ ans' = NotFound /\ how' = h /\ UNCHANGED <<cache, last, hist>>
+          THEN Done(r, NotFound, h) /\ UNCHANGED <<cache, gone>>         \* TemplateNotFoundError; the cache is left alone
+          ELSE pc' = "walk" /\ req' = r /\ idx' = i + 1 /\ ans' = NotFound /\ how' = h /\ UNCHANGED <<cache, gone, last, hist>>
 
 (* Environment.get_template: a plain root starts probing; a caching root computes the cache key and looks it up -- *)
 (* self.cache[cache_key]: a hit moves the entry to the most-recent end; a miss goes on to the first probe          *)
@@ -245,7 +248,7 @@ Begin(name, ns) ==
   /\ LET r == [name |-> name, ns |-> ns]
      IN IF ~RootCaching THEN Probe(r, 1, "direct")
         ELSE IF ~Has(CKey(r)) THEN Probe(r, 1, "miss")
-        ELSE /\ cache' = Touch(CKey(r))
+        ELSE /\ cache' = Touch(CKey(r)) /\ gone' = gone
              /\ IF AutoReload
                 THEN pc' = "check" /\ req' = r /\ idx' = 0 /\ ans' = NotFound /\ how' = "" /\ UNCHANGED <<last, hist>>
                 ELSE Done(r, Entry(CKey(r)).ans, "nocheck")
@@ -254,7 +257,7 @@ Begin(name, ns) ==
 Check ==                                    \* cached_template.is_up_to_date(); not up to date: load again, starting at the first probe
   /\ pc = "check"
   /\ IF UpToDate(Entry(CKey(req)).ans)
-     THEN Done(req, Entry(CKey(req)).ans, "hit") /\ UNCHANGED cache
+     THEN Done(req, Entry(CKey(req)).ans, "hit") /\ UNCHANGED <<cache, gone>>
      ELSE Probe(req, 1, "reload")
   /\ UNCHANGED <<cf, store, wr>>
 
@@ -266,6 +269,7 @@ Walk ==                                     \* the next loader / search path
 Store ==                                    \* self.cache[cache_key] = template, then the template is returned
   /\ pc = "store"
   /\ cache' = Insert([key |-> CKey(req), ans |-> ans])
+  /\ gone' = (gone \cup Evicted(CKey(req))) \ {CKey(req)}
   /\ Done(req, ans, how)
   /\ UNCHANGED <<cf, store, wr>>
 
@@ -275,14 +279,14 @@ Write(c) ==
   /\ store' = [store EXCEPT ![c] = wr[c] + 1]
   /\ last' = [op |-> "write", store |-> c.store, key |-> c.key, ver |-> wr[c] + 1]
   /\ hist' = Append(hist, last')
-  /\ UNCHANGED <<cf, cache, pc, req, idx, ans, how>>
+  /\ UNCHANGED <<cf, cache, gone, pc, req, idx, ans, how>>
 
 Delete(c) ==
   /\ pc = "idle" /\ Ops < MaxLen - 1 /\ store[c] > 0
   /\ store' = [store EXCEPT ![c] = 0]
   /\ last' = [op |-> "delete", store |-> c.store, key |-> c.key]
   /\ hist' = Append(hist, last')
-  /\ UNCHANGED <<cf, wr, cache, pc, req, idx, ans, how>>
+  /\ UNCHANGED <<cf, wr, cache, gone, pc, req, idx, ans, how>>
 
 Next == \/ \E n \in ReqNames, s \in ReqSpaces : Begin(n, s)
         \/ Check \/ Walk \/ Store
@@ -296,7 +300,7 @@ Cached == RootCaching /\ IsGet
 (* the walk, probe by probe, ends at the first probe that exists: the declarative requirement *)
 WalkSkipsOnlyAbsent == pc = "walk" => \A j \in 1..(idx - 1) : Ver(Cell(PT(req.name, req.ns)[j])) = 0
 WalkFindsFirst == /\ pc = "store" => ans = Ref(req)
-                  /\ (pc = "idle" /\ last.op = "get" /\ last.how \in {"direct", "miss", "reload"}) => last.mech = last.ref
+                  /\ (pc = "idle" /\ last.op = "get" /\ last.how \in {"direct", "miss", "miss-evicted", "reload"}) => last.mech = last.ref
 (* a non-caching composition (also one with an inert inner cache) always gives the requirement's answer *)
 NonCachingExact == (IsGet /\ ~RootCaching) => last.mech = last.ref /\ last.adm = <<last.ref>>
 (* with auto_reload the caching root answers like the non-caching composition, except in the two unspecified situations *)
@@ -316,6 +320,7 @@ AnswerIsAProbe == (IsGet /\ last.mech.found) =>
 (* a decoy (suffix-less file beside a default extension) is never served *)
 NoDecoy == (IsGet /\ last.mech.found /\ last.mech.det /\ last.mech.store \in DecoyStores) => last.mech.key \notin Stems
 Bounded == Len(cache) <= Cap /\ (~RootCaching => cache = <<>>)
+GoneIsGone == \A k \in gone : ~Has(k)
 NoDupKeys == \A i, j \in 1..Len(cache) : cache[i].key = cache[j].key => i = j
 CacheHoldsLoaded == \A i \in 1..Len(cache) : cache[i].ans.found /\ cache[i].ans.ver >= 1
                                               /\ cache[i].ans.ver <= wr[[store |-> cache[i].ans.store, key |-> cache[i].ans.key]]
@@ -327,6 +332,6 @@ NoCheckServesEntry == [][(pc = "idle" /\ pc' = "idle" /\ last'.op = "get" /\ Roo
 (* the stores are changed by Write / Delete only; a request never writes *)
 GetsDoNotWrite == [][(pc # "idle" \/ pc' # "idle" \/ last'.op = "get") => (store' = store /\ wr' = wr)]_vars
 
-View == <<cf, store, wr, cache, pc, req, idx, ans, how, last>>
+View == <<cf, store, wr, cache, gone, pc, req, idx, ans, how, last>>
 Emit == IsGet => PrintT(ToJson([comp |-> cf.comp, tree |-> Tree, auto |-> AutoReload, nskey |-> NSKey, cap |-> Cap, len |-> MaxLen, steps |-> hist]))
 =============================================================================
